@@ -643,8 +643,21 @@ class Translator:
         """Coq name of the translated function a call to `cname` in the current file reaches, or None"""
         if (self.cur_file, cname) in self.byfile:
             return self.byfile[(self.cur_file, cname)]
-        cands = [c for (f, n), c in self.byfile.items() if n == cname]
-        return cands[0] if len(cands) == 1 else None
+        cands = [(f, c) for (f, n), c in self.byfile.items() if n == cname]
+        if len(cands) > 1:      # a static function of another file is not visible from this one (uc_len of regex.c)
+            cands = [(f, c) for f, c in cands if not self.is_static_fn(f, cname)]
+        return cands[0][1] if len(cands) == 1 else None
+
+    def is_static_fn(self, f, cname):
+        if not hasattr(self, 'staticfn'):
+            self.staticfn = {}
+        if (f, cname) not in self.staticfn:
+            st = False
+            for d in ast_docs(os.path.join(REPO, f), cname):
+                if d.get('kind') == 'FunctionDecl' and d.get('name') == cname and any(c.get('kind') == 'CompoundStmt' for c in d.get('inner', [])):
+                    st = d.get('storageClass') == 'static'
+            self.staticfn[(f, cname)] = st
+        return self.staticfn[(f, cname)]
 
     def extern(self, cname):
         """a function that is not translated: calling it is the error EShape (no such index in cprog)"""
